@@ -4,9 +4,11 @@ package main
 
 import (
 	"bufio"
+	"bytes"
 	"context"
 	"fmt"
 	"net"
+	"os"
 	"strconv"
 	"strings"
 	"sync"
@@ -14,6 +16,7 @@ import (
 	"time"
 
 	"github.com/postalsys/muti-metroo/internal/agent"
+	"github.com/postalsys/muti-metroo/internal/config"
 	"github.com/postalsys/muti-metroo/internal/crypto"
 	"github.com/postalsys/muti-metroo/internal/forward"
 	"github.com/postalsys/muti-metroo/internal/identity"
@@ -29,6 +32,9 @@ import (
 //	agent <addrType> <addr> <none|self|other|selfother|otherself> <w>
 //	                                                   Agent.handleStreamOpen(frame)     -> none | err <code> | dial <target>   (a failed dial is err <code> too)
 //	      (w=1: the generator expects an asynchronous answer, wait for it; w=0: only a short grace period)
+//	ingress <key> <w>                                  the INGRESS side: a second, real agent (agent.New, not started) with a learned route
+//	                                                   for <key> runs Agent.DialForward(key); the STREAM_OPEN it sends is captured and handed,
+//	                                                   byte for byte, to the exit agent's handleStreamOpen -> noroute | undecodable | as agent
 //	close <i>                                          HandleStreamClose of the i-th dialled stream -> ok
 //
 // Every answer gets " stray=<target>" appended for each connection a listener accepted that does
@@ -77,6 +83,10 @@ type c20State struct {
 	w       *c20Writer
 	nextSID uint64
 	maxConn int
+	ing      *agent.Agent // ingress agent (lazily created, lives for the whole run)
+	ingBuf   *c20Buf
+	ingID    identity.AgentID
+	routeSeq uint64
 	hostOK  bool // "localhost" resolves here (to loopback addresses we could cover)
 	dialled []uint64   // stream ids of successful dials (for close)
 	conns   []net.Conn // accepted connections of this case
@@ -151,6 +161,86 @@ func (s *c20State) init() {
 		must(err)
 		s.ephPub = pub
 	})
+}
+
+// c20Buf collects what the ingress agent writes to its next hop.
+type c20Buf struct {
+	mu sync.Mutex
+	b  bytes.Buffer
+}
+
+func (b *c20Buf) Write(p []byte) (int, error) {
+	b.mu.Lock()
+	defer b.mu.Unlock()
+	return b.b.Write(p)
+}
+
+func (b *c20Buf) take() []byte {
+	b.mu.Lock()
+	defer b.mu.Unlock()
+	out := append([]byte(nil), b.b.Bytes()...)
+	b.b.Reset()
+	return out
+}
+
+func (s *c20State) ingInit() {
+	if s.ing != nil {
+		return
+	}
+	dir, err := os.MkdirTemp("", "verif-c20-")
+	must(err)
+	for i := range s.ingID {
+		s.ingID[i] = 0x44
+	}
+	cfg := config.Default()
+	cfg.Agent.ID = s.ingID.String()
+	cfg.Agent.DataDir = dir
+	cfg.Agent.LogLevel = "error"
+	a, err := agent.New(cfg)
+	must(err)
+	s.ing, s.ingBuf = a, &c20Buf{}
+	agent.C20InjectPeer(a, s.self, s.ingBuf)
+}
+
+// ingressOpen runs the real DialForward for key and returns the payload of the STREAM_OPEN it sent.
+func (s *c20State) ingressOpen(key string) ([]byte, string) {
+	s.ingInit()
+	s.routeSeq++
+	agent.C20AddForwardRoute(s.ing, key, s.self, s.routeSeq)
+	s.ingBuf.take()
+	ctx, cancel := context.WithCancel(context.Background())
+	errCh := make(chan error, 1)
+	go func() {
+		_, err := s.ing.DialForward(ctx, key)
+		errCh <- err
+	}()
+	var data []byte
+	deadline := time.Now().Add(10 * time.Second)
+	for len(data) == 0 && time.Now().Before(deadline) {
+		select {
+		case err := <-errCh:
+			cancel()
+			if d := s.ingBuf.take(); len(d) > 0 { // sent, then failed for another reason
+				data = d
+				break
+			}
+			if err != nil && strings.Contains(err.Error(), "no route") {
+				return nil, "noroute"
+			}
+			return nil, "ingress-error"
+		case <-time.After(200 * time.Microsecond):
+			data = s.ingBuf.take()
+		}
+	}
+	cancel()
+	if len(data) == 0 {
+		return nil, "ingress-timeout"
+	}
+	fr, err := protocol.NewFrameReader(bytes.NewReader(data)).Read()
+	if err != nil || fr.Type != protocol.FrameStreamOpen {
+		return nil, "ingress-badframe"
+	}
+	return fr.Payload, ""
 }
 
 func (s *c20State) drain(wait time.Duration) {
@@ -322,6 +412,20 @@ func init() {
 				// in a state to accept (public accessors; a synchronous refusal is picked up either way)
 				wait := f[4] == "1" && s.h.IsRunning() && (s.maxConn <= 0 || s.h.ConnectionCount() < int64(s.maxConn))
 				return s.outcome(sid, rid, wait, "err")
+			case "ingress":
+				payload, verdict := s.ingressOpen(string(unhexTok(f[1])))
+				if verdict != "" {
+					return verdict
+				}
+				open, err := protocol.DecodeStreamOpen(payload)
+				if err != nil {
+					return "undecodable"
+				}
+				s.nextSID += 2
+				sid := s.nextSID
+				s.ag.C20HandleStreamOpen(s.remote, &protocol.Frame{Type: protocol.FrameStreamOpen, StreamID: sid, Payload: payload})
+				wait := f[2] == "1" && s.h.IsRunning() && (s.maxConn <= 0 || s.h.ConnectionCount() < int64(s.maxConn))
+				return s.outcome(sid, open.RequestID, wait, "err")
 			case "close":
 				i, err := strconv.Atoi(f[1])
 				must(err)
@@ -508,6 +612,19 @@ func c20GenCase(w *bufio.Writer, r *rng) {
 			dials++
 		case x < 58:
 			fmt.Fprintf(w, "close %d\n", r.intn(dials+1))
+		case x >= 61 && x < 71:
+			k := pickKey()
+			if r.chance(6) {
+				k = strings.Repeat("k", r.pick(246, 247, 248, 255)) // around the one-byte length of the address field
+			} else if len(k) > 247 {
+				k = k[:247]
+			}
+			wait := 0
+			if _, ok := known(k); ok && len(k) <= 247 {
+				wait = 1
+			}
+			fmt.Fprintf(w, "ingress %s %d\n", hexTok([]byte(k)), wait)
+			dials++
 		case x < 61:
 			fmt.Fprintf(w, "start\n")
 		default:
